@@ -126,7 +126,7 @@ def run(c):
 
     # ---- 4. run-level determinism ------------------------------------------------------
     drv = hydrolib.driver()
-    cfgs = [dict(src="D", diffuse=0, n=[2, 2, 2], per=[0, 0, 0], copy=1, nthr=1, np=7777),
+    cfgs = [dict(src="D", diffuse=0, n=[2, 2, 2], per=[0, 0, 0], copy=1, nthr=1, np=7777, nsrc=3),
             dict(src="DC", diffuse=1, n=[1, 1, 4], per=[0, 0, 0], copy=0, nthr=1, np=10000),
             dict(src="D", diffuse=1, n=[2, 1, 2], per=[1, 0, 1], copy=2, nthr=1, np=9999)]
     if tier != "quick":
@@ -138,16 +138,23 @@ def run(c):
         shutil.rmtree(d, ignore_errors=True)
         import rhdparams
         n = tuple(cf["n"])
-        p = rhdparams.ion_param(d, ncell=tuple(4 * x for x in n), nsub=n, periodic=tuple(bool(x) for x in cf["per"]),
-                                nphoton=cf["np"], niter=3, discrete="D" in cf["src"], continuous="C" in cf["src"],
-                                diffuse=bool(cf["diffuse"]), copy_level=cf["copy"], seed=77)
+        kw = dict(ncell=tuple(4 * x for x in n), nsub=n, periodic=tuple(bool(x) for x in cf["per"]),
+                  nphoton=cf["np"], niter=3, discrete="D" in cf["src"], continuous="C" in cf["src"],
+                  diffuse=bool(cf["diffuse"]), copy_level=cf["copy"], seed=77, nsources=cf.get("nsrc", 1))
+        p = rhdparams.ion_param(d, **kw)
         # same output folder name inside both runs (paths may appear in outputs): run in d, compare only snapshots
-        rc, out = vlib.sh("cd %s && %s --task-based --params %s --threads 1 > run.log 2>&1" % (d, drv, p), timeout=300,
+        snapdir = d
+        extra = ""
+        if which == "c":
+            # the run that counts is the SECOND set-up inside one process (output folder d/second)
+            snapdir = os.path.join(d, "second")
+            extra = " --params2 %s" % rhdparams.ion_param(snapdir, **kw)
+        rc, out = vlib.sh("cd %s && %s --task-based --params %s%s --threads 1 > run.log 2>&1" % (d, drv, p, extra), timeout=300,
                           env={"OMP_NUM_THREADS": "1", "CMI_VERIF_TRACE": os.path.join(d, "tr.ndjson")})
         h = hashlib.sha256()
-        names = sorted(f for f in os.listdir(d) if f.startswith("snap_"))
+        names = sorted(f for f in os.listdir(snapdir) if f.startswith("snap_"))
         for f in names:
-            h.update(open(os.path.join(d, f), "rb").read())
+            h.update(open(os.path.join(snapdir, f), "rb").read())
         ev = [json.dumps({k2: v for k2, v in json.loads(l).items() if k2 != "q"}) for l in open(os.path.join(d, "tr.ndjson"))] \
             if os.path.exists(os.path.join(d, "tr.ndjson")) else []
         h2 = hashlib.sha256("\n".join(ev).encode()).hexdigest()
@@ -157,6 +164,9 @@ def run(c):
     def djob(k):
         a = digest_run(k, cfgs[k], "a")
         b = digest_run(k, cfgs[k], "b")
+        cc = digest_run(k, cfgs[k], "c")
+        if cc[0] != 0 or cc[1] == 0 or cc[2] != a[2]:
+            b = (b[0] if b[0] != 0 else cc[0], cc[1], cc[2] if b[2] == a[2] else b[2], "second set-up in one process")
         return k, a, b
 
     with ThreadPoolExecutor(max_workers=5) as ex:
@@ -197,7 +207,7 @@ def run(c):
             out.setdefault(a, set()).add(lab.split("(")[0])
     c.cov["one_thread_model_max_enabled_actions"] = max(len(v) for v in out.values()) if out else 0
     c.add_model("PhotonSched NT=1", r, "N=3 CAP=2 NB=4 REEMIT")
-    vlib.log("run level: %d configurations run twice with one thread: %s" % (len(cfgs), st))
+    vlib.log("run level: %d configurations run twice in separate processes and once as the second set-up inside one process (one thread): %s" % (len(cfgs), st))
 
     # ---- 5. self-test ----------------------------------------------------------------------
     if firstok:
